@@ -19,7 +19,9 @@ import traceback
 
 ROOT = os.path.dirname(os.path.dirname(os.path.abspath(__file__)))
 REPO = os.environ.get('VERIF_REPO', '/repo')
-OUT = os.path.join(ROOT, 'out')
+# replay artefacts of runs against a scratch tree (VERIF_REPO=...) go to out/scratch so they never
+# overwrite the artefacts of runs against /repo
+OUT = os.environ.get('VERIF_OUT') or os.path.join(ROOT, 'out', 'scratch' if REPO != '/repo' else '')
 EVIDENCE_DIR = os.environ.get('VERIF_EVIDENCE_DIR') or os.path.join(ROOT, 'evidence')
 KNOWN_FILE = os.path.join(ROOT, 'known_findings.json')
 
